@@ -1,15 +1,23 @@
 import SgVerif.C29.Lemmas
+import SgVerif.C29.LemmasBcast
+import SgVerif.C29.LemmasPair
+import SgVerif.C29.LemmasReduce
+import SgVerif.C29.LemmasSpec
+import SgVerif.C29.LemmasLr
+import SgVerif.C29.LemmasBruck
+import SgVerif.C29.LemmasA2aRing
 /-
 C29 — Every collective algorithm computes the MPI result.  Property theorems.
 
 (A) theorems on the SPEC (Model.lean §Spec), for every communicator size, count, buffers, and every operator that is
     associative (+ commutative where stated);
-(B) schedule theorems: the round-based models of allreduce-rdb (incl. its non-power-of-two pre/post phase) and of
-    allgather-ring compute the spec's result for EVERY communicator size and rank (`allreduce_rdb_eq_spec`,
-    `allgather_ring_eq_spec`).
-    NOT proved (modelled in Model.lean and compared with the library on the grid only): bcast binomial_tree,
-    alltoall pair.  The ≈180 other selectable algorithms are not modelled at all: they are tied to the
-    spec by the correspondence only.
+(B) schedule theorems: the round-based models of allreduce-rdb (incl. its non-power-of-two pre/post phase),
+    allgather-ring, bcast binomial_tree (= the default bcast), alltoall pair, alltoall ring, reduce flat_tree, reduce binomial, allgather bruck and
+    allreduce lr (ring reduce-scatter + ring allgather; counts that are a positive multiple of the size)
+    compute the spec's result for EVERY communicator size, root and rank (`allreduce_rdb_eq_spec`,
+    `allgather_ring_eq_spec`, `bcast_binomial_eq_spec`, `alltoall_pair_eq_spec`, `reduce_flat_tree_eq_spec`,
+    `reduce_binomial_eq_spec`, `allreduce_lr_eq_spec`, `allgather_bruck_eq_spec`, `alltoall_ring_eq_spec`).  The other selectable algorithms are not modelled: they are tied to the spec by the
+    correspondence only.
 -/
 namespace SgVerif.C29
 variable {α : Type}
@@ -163,6 +171,209 @@ theorem transpose_entry {β : Type} (n : Nat) (m : List (List β)) (r j : Nat) (
   simp only [Option.bind_some]
   exact filterMap_col m r j hrow
 
+/-! ### algebra of the specifications -/
+
+/-- **reduce_scatter = scatterv ∘ reduce**: reduce to `root`, put the result in the root's buffer and scatter it with
+the counts `cnts` at consecutive displacements -/
+theorem reduce_scatter_eq_scatter_reduce (op : α → α → α) (root : Nat) (cnts : List Nat) (bufs : Bufs α) (res : Res α)
+    (v : List α) (hr : reduce op root bufs = some res) (hv : res[root]? = some (some v)) :
+    scatterv root cnts (offsets 0 cnts) (bufs.set root v) = reduceScatter op cnts bufs := by
+  unfold reduce at hr
+  split at hr
+  · rename_i hlt
+    cases hra : reduceAll op bufs with
+    | none => simp [hra] at hr
+    | some w =>
+      simp only [hra, Option.map_some, Option.some.injEq] at hr
+      subst hr
+      rw [onlyAt_getElem? _ _ _ _ hlt] at hv
+      simp only [if_true, Option.some.injEq] at hv
+      subst hv
+      unfold scatterv reduceScatter
+      simp [hra, hlt, offsets_length]
+  · cases hr
+
+/-- **reduce_scatter_block = scatter ∘ reduce** (all buffers of `np * c` cells) -/
+theorem reduce_scatter_block_eq_scatter_reduce (op : α → α → α) (root c : Nat) (bufs : Bufs α) (res : Res α)
+    (v : List α) (hlen : ∀ b ∈ bufs, b.length = bufs.length * c) (hr : reduce op root bufs = some res)
+    (hv : res[root]? = some (some v)) :
+    scatter root c (bufs.set root v) = reduceScatter op (List.replicate bufs.length c) bufs := by
+  unfold reduce at hr
+  split at hr
+  · rename_i hlt
+    cases hra : reduceAll op bufs with
+    | none => simp [hra] at hr
+    | some w =>
+      simp only [hra, Option.map_some, Option.some.injEq] at hr
+      subst hr
+      rw [onlyAt_getElem? _ _ _ _ hlt] at hv
+      simp only [if_true, Option.some.injEq] at hv
+      subst hv
+      have hwl : w.length = bufs.length * c := by
+        cases bufs with
+        | nil => simp [reduceAll] at hra
+        | cons b bs =>
+          simp only [reduceAll, Option.some.injEq] at hra
+          subst hra
+          exact foldl_zipOp_length op _ b bs (hlen b (by simp)) (fun x hx => hlen x (by simp [hx]))
+      have hsl := slices_replicate c bufs.length 0 w (by omega)
+      unfold scatter reduceScatter
+      simp [hra, hlt, hwl, hsl]
+  · cases hr
+
+theorem transposeN_rows {β : Type} (n : Nat) (m : List (List β)) (hrow : ∀ row ∈ m, row.length = n) :
+    ∀ row ∈ transposeN n m, row.length = m.length := by
+  intro row hmem
+  obtain ⟨r, hr, hget⟩ := List.getElem_of_mem hmem
+  rw [transposeN_length] at hr
+  have h1 := transposeN_getElem? n m r hr
+  rw [List.getElem?_eq_getElem (by rw [transposeN_length]; exact hr), hget] at h1
+  rw [Option.some.inj h1]
+  exact filterMap_col_length m r (fun row' h' => by rw [hrow row' h']; exact hr)
+
+/-- **the transpose is an involution, as a list equality** (square matrix of `n` rows of `n` entries) -/
+theorem transposeN_involutive {β : Type} (n : Nat) (m : List (List β)) (hm : m.length = n)
+    (hrow : ∀ row ∈ m, row.length = n) : transposeN n (transposeN n m) = m := by
+  have hT := transposeN_rows n m hrow
+  rw [hm] at hT
+  have hTT := transposeN_rows n (transposeN n m) hT
+  rw [transposeN_length] at hTT
+  apply matrix_ext n n _ _ (transposeN_length _ _) hm hTT hrow
+  intro r j hr hj
+  rw [transpose_entry n (transposeN n m) r j hr (fun row h => by rw [hT row h]; exact hr),
+    transpose_entry n m j r hj (fun row h => by rw [hrow row h]; exact hj)]
+
+/-- **alltoall ∘ alltoall = id**: sending the received buffers back returns every rank's original send buffer -/
+theorem alltoall_involutive (c : Nat) (bufs : Bufs α) (res : Res α) (h : alltoall c bufs = some res) :
+    alltoall c (res.map (·.getD [])) = some (bufs.map some) := by
+  unfold alltoall at h
+  split at h
+  · rename_i hall
+    simp only [Option.some.injEq] at h
+    have hlen : ∀ b ∈ bufs, b.length = bufs.length * c := by
+      intro b hb; simpa using List.all_eq_true.mp hall b hb
+    have hM : (bufs.map (chunks c bufs.length)).length = bufs.length := by simp
+    have hMrow : ∀ row ∈ bufs.map (chunks c bufs.length), row.length = bufs.length := by
+      intro row hrow
+      obtain ⟨b, _, rfl⟩ := List.mem_map.mp hrow
+      exact chunks_length _ _ _
+    have hTrow := transposeN_rows bufs.length _ hMrow
+    rw [hM] at hTrow
+    -- every block of the transposed matrix has `c` cells
+    have hblk : ∀ row ∈ transposeN bufs.length (bufs.map (chunks c bufs.length)), ∀ x ∈ row, x.length = c := by
+      intro row hmem x hx
+      obtain ⟨r, hr, hget⟩ := List.getElem_of_mem hmem
+      rw [transposeN_length] at hr
+      have h1 := transposeN_getElem? bufs.length (bufs.map (chunks c bufs.length)) r hr
+      rw [List.getElem?_eq_getElem (by rw [transposeN_length]; exact hr), hget] at h1
+      rw [Option.some.inj h1] at hx
+      obtain ⟨row', hrow', hx'⟩ := filterMap_col_mem _ r x hx
+      obtain ⟨b, hb, rfl⟩ := List.mem_map.mp hrow'
+      exact chunks_mem_length c bufs.length b (hlen b hb) x hx'
+    have hres : res.map (·.getD []) = (transposeN bufs.length (bufs.map (chunks c bufs.length))).map List.flatten := by
+      rw [← h, List.map_map]; rfl
+    rw [hres]
+    have hB : ((transposeN bufs.length (bufs.map (chunks c bufs.length))).map List.flatten).length = bufs.length := by
+      rw [List.length_map, transposeN_length]
+    have hall' : (((transposeN bufs.length (bufs.map (chunks c bufs.length))).map List.flatten).all
+        fun b => decide (b.length = ((transposeN bufs.length (bufs.map (chunks c bufs.length))).map List.flatten).length * c))
+        = true := by
+      rw [hB]
+      apply List.all_eq_true.mpr
+      intro b hb
+      obtain ⟨row, hrow, rfl⟩ := List.mem_map.mp hb
+      rw [flatten_length_const c row (hblk row hrow), hTrow row hrow]
+      simp
+    unfold alltoall
+    rw [if_pos hall', hB]
+    have hch : ((transposeN bufs.length (bufs.map (chunks c bufs.length))).map List.flatten).map (chunks c bufs.length)
+        = transposeN bufs.length (bufs.map (chunks c bufs.length)) := by
+      rw [List.map_map]
+      conv => rhs; rw [← List.map_id (transposeN bufs.length (bufs.map (chunks c bufs.length)))]
+      apply List.map_congr_left
+      intro row hrow
+      exact chunks_flatten c bufs.length row (hTrow row hrow) (hblk row hrow)
+    rw [hch, transposeN_involutive bufs.length _ hM hMrow, List.map_map]
+    congr 1
+    apply List.map_congr_left
+    intro b hb
+    simp only [Function.comp]
+    rw [flatten_chunks c bufs.length b (by rw [hlen b hb]; exact Nat.le_refl _)]
+  · cases h
+
+/-- **gather ∘ scatter = id** on the root's buffer -/
+theorem gather_scatter_inverse (root c : Nat) (bufs : Bufs α) (res : Res α) (h : scatter root c bufs = some res) :
+    ∃ b, bufs[root]? = some b ∧ gather root (res.map (·.getD [])) = some (onlyAt bufs.length root b) := by
+  unfold scatter at h
+  cases hb : bufs[root]? with
+  | none => simp [hb] at h
+  | some b =>
+    have hroot : root < bufs.length := (List.getElem?_eq_some_iff.mp hb).1
+    simp only [hb] at h
+    split at h
+    · rename_i hl
+      simp only [Option.some.injEq] at h
+      refine ⟨b, rfl, ?_⟩
+      have : res.map (·.getD []) = chunks c bufs.length b := by
+        rw [← h, List.map_map]
+        conv => rhs; rw [← List.map_id (chunks c bufs.length b)]
+        apply List.map_congr_left
+        intro x _; rfl
+      rw [this]
+      unfold gather
+      rw [chunks_length, if_pos hroot, flatten_chunks c bufs.length b (by omega)]
+    · cases h
+
+/-- **scatter ∘ gather = id** on buffers of `c` cells -/
+theorem scatter_gather_inverse (root c : Nat) (bufs : Bufs α) (res : Res α) (v : List α) (hc : ∀ b ∈ bufs, b.length = c)
+    (hg : gather root bufs = some res) (hv : res[root]? = some (some v)) :
+    scatter root c (bufs.set root v) = some (bufs.map some) := by
+  unfold gather at hg
+  split at hg
+  · rename_i hlt
+    simp only [Option.some.injEq] at hg
+    subst hg
+    rw [onlyAt_getElem? _ _ _ _ hlt] at hv
+    simp only [if_true, Option.some.injEq] at hv
+    subst hv
+    unfold scatter
+    simp [hlt, flatten_length_const c bufs hc, chunks_flatten c bufs.length bufs rfl hc]
+  · cases hg
+
+/-- **any count, including 0 and counts below the communicator size**: the reduction of buffers of `c` cells has `c`
+cells (nothing in the spec or in the theorems of this file depends on `c ≥ np`) -/
+theorem reduce_count (op : α → α → α) (c : Nat) (bufs : Bufs α) (v : List α) (hb : ∀ b ∈ bufs, b.length = c)
+    (h : reduceAll op bufs = some v) : v.length = c := by
+  cases bufs with
+  | nil => simp [reduceAll] at h
+  | cons b bs =>
+    simp only [reduceAll, Option.some.injEq] at h
+    subst h
+    exact foldl_zipOp_length op c b bs (hb b (by simp)) (fun x hx => hb x (by simp [hx]))
+
+/-- count 0: every rank of a non-empty communicator gets the empty buffer from an allreduce -/
+theorem allreduce_count_zero (op : α → α → α) (bufs : Bufs α) (hne : bufs ≠ []) (hb : ∀ b ∈ bufs, b.length = 0) :
+    allreduce op bufs = some (everywhere bufs.length []) := by
+  cases hra : reduceAll op bufs with
+  | none => cases bufs with
+    | nil => exact absurd rfl hne
+    | cons b bs => simp [reduceAll] at hra
+  | some v =>
+    have := reduce_count op 0 bufs v hb hra
+    have hv : v = [] := List.eq_nil_of_length_eq_zero this
+    simp [allreduce, hra, hv]
+
+/-- non-vacuity: 3 ranks, 1 cell per block: transpose twice; counts 0 -/
+example : alltoall 1 [[1, 2, 3], [4, 5, 6], [7, 8, 9]] = some [some [1, 4, 7], some [2, 5, 8], some [3, 6, 9]] ∧
+    alltoall 1 [[1, 4, 7], [2, 5, 8], [3, 6, 9]] = some [some [1, 2, 3], some [4, 5, 6], some [7, 8, 9]] := by decide
+example : allreduce (· + ·) [([] : List Int), [], []] = some [some [], some [], some []] := by decide
+/-- non-vacuity: reduce_scatter of 3 ranks with counts 2,0,1 (a zero count, total 3 = np) -/
+example : reduceScatter (· + ·) [2, 0, 1] [[1, 2, 3], [10, 20, 30], [100, 200, 300]]
+    = some [some [111, 222], some [], some [333]] ∧
+    reduce (· + ·) 1 [[1, 2, 3], [10, 20, 30], [100, 200, 300]] = some [none, some [111, 222, 333], none] := by decide
+example : scatter 1 2 [[], [1, 2, 3, 4, 5, 6], []] = some [some [1, 2], some [3, 4], some [5, 6]] ∧
+    gather 1 [[1, 2], [3, 4], [5, 6]] = some [none, some [1, 2, 3, 4, 5, 6], none] := by decide
+
 /-! ## (B) schedules -/
 
 /-- **allreduce recursive doubling = the spec, for every communicator size** (power of two or not: the pre/post phase
@@ -214,6 +425,174 @@ theorem allgather_ring_eq_spec (bufs : Bufs α) (rank : Nat) (hr : rank < bufs.l
   · have h1 : (ringRounds bufs rank (bufs.length - 1) (setSlot (List.replicate bufs.length none) rank bufs[rank])).length
         = bufs.length := by rw [ringRounds_length]; simp [setSlot]
     rw [List.getElem?_eq_none (by omega), List.getElem?_eq_none (by simp; omega)]
+
+/-- **binomial-tree broadcast (bcast-binomial-tree.cpp, also `bcast__default`) = the spec, for every communicator size
+and every root**: after the rounds at masks `2^(K-1) … 1` every rank holds the root's buffer.  (Every posted receive is
+matched by the send of the model's `sendsAt` test, which is proved to succeed: `sendsAt_parent`.) -/
+theorem bcast_binomial_eq_spec (bufs : Bufs α) (root : Nat) (hroot : root < bufs.length) :
+    some (bcastBinomial bufs.length root bufs[root]) = bcast root bufs := by
+  unfold bcast bcastBinomial
+  rw [List.getElem?_eq_getElem hroot, bcastBinomialRel_eq]
+  simp only [Option.map_some, Option.some.injEq, everywhere]
+  apply List.map_congr_left
+  intro r hr
+  have hrn : r < bufs.length := List.mem_range.mp hr
+  rw [getD_map_range]
+  split <;> omega
+
+/-- the same, rank by rank -/
+theorem bcast_binomial_rank (np root rank : Nat) (v : α) (hroot : root < np) (hr : rank < np) :
+    (bcastBinomial np root v)[rank]? = some (some v) := by
+  unfold bcastBinomial
+  rw [bcastBinomialRel_eq]
+  simp only [List.getElem?_map, List.getElem?_range hr, Option.map_some]
+  rw [getD_map_range]
+  split <;> omega
+
+/-- non-vacuity: 6 ranks, root 4 -/
+example : bcastBinomial 6 4 'x' = List.replicate 6 (some 'x') := by decide
+
+/-- **pairwise-exchange alltoall (alltoall-pair.cpp) = the spec, for every power-of-two communicator size** (the code
+refuses the other sizes, and so does the model: `alltoall_pair_refuses`), every rank, every block size: the slots
+received by `rank` are block `rank` of every rank's send buffer, i.e. `rank`'s receive buffer of `MPI_Alltoall`. -/
+theorem alltoall_pair_eq_spec (c : Nat) (bufs : Bufs α) (res : Res α) (rank : Nat) (hp : isPow2 bufs.length = true)
+    (hr : rank < bufs.length) (h : alltoall c bufs = some res) :
+    ((alltoallPair (bufs.map (chunks c bufs.length)) rank).bind allSome).map (fun row => some row.flatten) = res[rank]? := by
+  rw [alltoall_block c bufs res rank hr h]
+  have hrow : ∀ row ∈ bufs.map (chunks c bufs.length), rank < row.length := by
+    intro row hrow
+    obtain ⟨b, _, rfl⟩ := List.mem_map.mp hrow
+    rw [chunks_length]; exact hr
+  have hb := alltoallPair_blocks (bufs.map (chunks c bufs.length)) rank (by simpa using hp) hrow (by simpa using hr)
+  rw [hb, Option.bind_some, allSome_map_some]
+  simp [List.filterMap_map, Function.comp_def]
+
+theorem alltoall_pair_refuses (blocks : List (List (List α))) (rank : Nat) (hp : isPow2 blocks.length = false) :
+    alltoallPair blocks rank = none := by
+  simp [alltoallPair, hp]
+
+/-- non-vacuity: 4 ranks, 1 cell per block; and a refused size -/
+example : alltoallPair [[[1], [2], [3], [4]], [[5], [6], [7], [8]], [[9], [10], [11], [12]], [[13], [14], [15], [16]]] 2
+    = some [some [3], some [7], some [11], some [15]] := by decide
+example : alltoallPair [[[1], [2], [3]], [[4], [5], [6]], [[7], [8], [9]]] 1 = none := by decide
+
+/-- **ring alltoall (alltoall-ring.cpp) = the spec, for EVERY communicator size** (the pairwise exchange above only
+exists for powers of two), every rank, every block size: in round `i` rank `r` receives from `(r - i) % np` the block
+that this rank sends to `((r - i) + i) % np = r`. -/
+theorem alltoall_ring_eq_spec (c : Nat) (bufs : Bufs α) (res : Res α) (rank : Nat) (hr : rank < bufs.length)
+    (h : alltoall c bufs = some res) :
+    (allSome (alltoallRing (bufs.map (chunks c bufs.length)) rank)).map (fun row => some row.flatten) = res[rank]? := by
+  rw [alltoall_block c bufs res rank hr h]
+  have hrow : ∀ row ∈ bufs.map (chunks c bufs.length), rank < row.length := by
+    intro row hrow
+    obtain ⟨b, _, rfl⟩ := List.mem_map.mp hrow
+    rw [chunks_length]; exact hr
+  rw [alltoallRing_blocks (bufs.map (chunks c bufs.length)) rank hrow (by simpa using hr), allSome_map_some]
+  simp [List.filterMap_map, Function.comp_def]
+
+/-- non-vacuity: 3 ranks (not a power of two), 1 cell per block -/
+example : alltoallRing [[[1], [2], [3]], [[4], [5], [6]], [[7], [8], [9]]] 1 = [some [2], some [5], some [8]] := by decide
+
+/-- **flat-tree reduce (reduce-flat-tree.cpp) = the spec, for every communicator size and root**: the root computes
+`x₀ ⊕ (x₁ ⊕ (… ⊕ x_{np-1}))`; associativity only. -/
+theorem reduce_flat_tree_eq_spec (op : α → α → α) (hA : ∀ a b c, op (op a b) c = op a (op b c)) (x : Nat → List α)
+    (np root : Nat) (hnp : 1 ≤ np) (hroot : root < np) :
+    some (onlyAt np root (reduceFlatTree (zipOp op) x np)) = reduce op root ((List.range np).map x) := by
+  obtain ⟨n, rfl⟩ : ∃ n, np = n + 1 := ⟨np - 1, by omega⟩
+  unfold reduce
+  simp only [List.length_map, List.length_range, hroot, if_true]
+  rw [reduceAll_range, reduceFlatTree_eq (zipOp op) (zipOp_assoc op hA)]
+  rfl
+
+/-- non-vacuity: 5 ranks, `-`-free associative operator `+` -/
+example : reduceFlatTree (zipOp (· + ·)) (fun r => [(r : Int), 1]) 5 = [10, 5] := by decide
+
+/-- **binomial-tree reduce (reduce-binomial.cpp) = the spec, for every communicator size and root.**
+`comm` is the operator's `is_commutative()` flag: when it is set the tree is rooted at `root` and the code applies
+`received ⊕ mine` (the result is the fold of a rotation of the ranks, with swapped operands: commutativity needed and
+assumed — `hC`); when it is not set the tree is rooted at rank 0, the code applies `mine ⊕ received`, and associativity
+alone gives the rank-order fold. -/
+theorem reduce_binomial_eq_spec (op : α → α → α) (hA : ∀ a b c, op (op a b) c = op a (op b c)) (comm : Bool)
+    (hC : comm = true → ∀ a b, op a b = op b a) (x : Nat → List α) (np root : Nat) (hnp : 1 ≤ np) (hroot : root < np) :
+    some (onlyAt np root (reduceBinomial (zipOp op) comm x np root)) = reduce op root ((List.range np).map x) := by
+  obtain ⟨n, rfl⟩ : ∃ n, np = n + 1 := ⟨np - 1, by omega⟩
+  unfold reduce
+  simp only [List.length_map, List.length_range, hroot, if_true]
+  have hK := log2up_spec (n + 1)
+  have hbin : reduceBinomial (zipOp op) comm x (n + 1) root =
+      segFold (zipOp op) (fun d => x ((d + (if comm = true then root else 0)) % (n + 1))) 0 n := by
+    unfold reduceBinomial
+    simp only
+    rw [binVal_eq_segFold (zipOp op) (zipOp_assoc op hA) comm
+      (fun h => zipOp_comm op (hC h)) _ (n + 1) (log2up (n + 1)) 0 (Nat.zero_mod _) (by omega)]
+    congr 1; omega
+  rw [hbin]
+  cases comm with
+  | false =>
+    have : segFold (zipOp op) (fun d => x ((d + (if false = true then root else 0)) % (n + 1))) 0 n
+        = segFold (zipOp op) x 0 n := by
+      apply segFold_congr
+      intro i _ hi
+      simp only [Bool.false_eq_true, if_false, Nat.add_zero]
+      rw [Nat.mod_eq_of_lt (by omega)]
+    rw [this, reduceAll_range]; rfl
+  | true =>
+    simp only [if_true]
+    have h1 := reduceAll_range op (fun d => x ((d + root) % (n + 1))) n
+    have hperm : ((List.range (n + 1)).map fun d => x ((d + root) % (n + 1))).Perm ((List.range (n + 1)).map x) := by
+      have := (rot_perm (n + 1) root hroot).map x
+      simpa [List.map_map, Function.comp_def] using this
+    rw [← reduceAll_perm op hA (hC rfl) _ _ hperm, h1]; rfl
+
+/-- non-vacuity: 6 ranks (not a power of two), root 4, both branches -/
+example : reduceBinomial (zipOp (· + ·)) true (fun r => [(r : Int), 1]) 6 4 = [15, 6] := by decide
+example : reduceBinomial (zipOp (· ++ ·)) false (fun r => [[r]]) 6 4 = [[0, 1, 2, 3, 4, 5]] := by decide
+
+/-- **logical-ring allreduce (allreduce-lr.cpp: ring reduce-scatter + ring allgather) = the spec, for every
+communicator size and rank**, when the count is a positive multiple of the size (otherwise the code calls other
+algorithms: redbcast for `rcount < size`, the selector's allreduce on the remainder — not modelled).  `x r b` = block `b`
+(of `c` cells) of the send buffer of rank `r`.  The ring accumulates every block in the order `r, r-1, …` (cyclically):
+commutativity is needed, as the source says ("assume commutative and associative reduce operator"). -/
+theorem allreduce_lr_eq_spec (op : α → α → α) (hA : ∀ a b c, op (op a b) c = op a (op b c)) (hC : ∀ a b, op a b = op b a)
+    (x : Nat → Nat → List α) (np c : Nat) (hnp : 1 ≤ np) (hlen : ∀ r b, r < np → b < np → (x r b).length = c)
+    (rank : Nat) (hr : rank < np) :
+    (allSome ((List.range np).map (allreduceLr (zipOp op) x np rank))).map List.flatten
+      = reduceAll op ((List.range np).map fun r => ((List.range np).map (x r)).flatten) := by
+  obtain ⟨n, rfl⟩ : ∃ n, np = n + 1 := ⟨np - 1, by omega⟩
+  have hl : (List.range (n + 1)).map (allreduceLr (zipOp op) x (n + 1) rank)
+      = ((List.range (n + 1)).map fun b => lrTotal (zipOp op) x (n + 1) b).map some := by
+    rw [List.map_map]
+    apply List.map_congr_left
+    intro b hb
+    exact allreduceLr_get (zipOp op) x (n + 1) hnp rank b hr (List.mem_range.mp hb)
+  rw [hl, allSome_map_some, Option.map_some, reduceAll_range]
+  obtain ⟨h1, _⟩ := segFold_blocks op (n + 1) c x n (fun r b hr' hb => hlen r b (by omega) hb)
+  rw [h1]
+  congr 2
+  apply List.map_congr_left
+  intro b hb
+  have h2 := lrTotal_eq_reduceAll op hA hC x n b (List.mem_range.mp hb)
+  rw [reduceAll_range] at h2
+  exact Option.some.inj h2
+
+/-- non-vacuity: 3 ranks, 3 blocks of 2 cells -/
+example : (allSome ((List.range 3).map (allreduceLr (zipOp (· + ·)) (fun r b => [(10 * r + b : Int), 1]) 3 1))).map List.flatten
+    = some [30, 3, 33, 3, 36, 3] := by decide
+
+/-- **Bruck allgather (allgather-bruck.cpp) = the spec, for every communicator size (power of two or not: the
+remainder round is part of the model) and every rank**: after the doubling rounds, the remainder round and the final
+local rotation, slot `i` of the receive buffer holds the block of rank `i`. -/
+theorem allgather_bruck_eq_spec (bufs : Bufs α) (rank : Nat) (hr : rank < bufs.length) :
+    allgatherBruck (fun r => bufs.getD r []) bufs.length rank = bufs.map some := by
+  rw [allgatherBruck_eq _ _ _ hr]
+  apply List.ext_getElem?
+  intro i
+  by_cases hi : i < bufs.length
+  · simp [hi, List.getD_eq_getElem?_getD]
+  · simp [hi]
+
+/-- non-vacuity: 6 ranks (not a power of two) -/
+example : allgatherBruck (fun r => [r]) 6 4 = [some [0], some [1], some [2], some [3], some [4], some [5]] := by decide
 
 /-- non-vacuity: 5 ranks -/
 example : allgatherRing [[1], [2], [3], [4], [5]] 3 = [some [1], some [2], some [3], some [4], some [5]] := by decide
